@@ -105,8 +105,8 @@ func init() {
 	addSpec(&Spec{ID: "C09", Title: "a failed write to the destination is always reported", Level: "fault_enumeration",
 		Shapes: portfolioMain,
 		Rule: "workloads = portfolio x 3 codecs x {single-page, multi-page, multi-row-group}; for each, a fault-free run counts the sink writes N and then EVERY k in 0..N-1 is re-run with the k-th sink write failing, " +
-			"in modes transient (only call k fails), sticky, partial (n=len/2 with the error) and full-count (n=len(p) with the error), and again (transient, sticky) against a destination that also offers Flush/Sync/Close/WriteString/ReadFrom; oracle = the API call in progress returns non-nil, no panic — also not from the calls a caller still makes after the error (the remaining Adds/Writes and Close are executed, their results not judged); distinct = (workload, k, mode), all non-trivial",
-		Require:    []string{"site_leading_magic", "site_page_header", "site_page_body_required", "site_page_body_optional", "site_footer", "site_footer_length", "site_trailing_magic", "cases_with_rich_sink"},
+			"in modes transient (only call k fails), sticky, partial (n=len/2 with the error) and full-count (n=len(p) with the error), again (transient, sticky) against a destination that also offers Flush/Sync/Close/WriteString/ReadFrom, and again with error VALUES a library may know (a *fs.PathError wrapping os.ErrClosed, io.EOF, io.ErrShortWrite); oracle = the API call in progress returns non-nil, no panic — also not from the calls a caller still makes after the error (the remaining Adds/Writes and Close are executed, their results not judged); distinct = (workload, k, mode), all non-trivial",
+		Require:    []string{"site_leading_magic", "site_page_header", "site_page_body_required", "site_page_body_optional", "site_footer", "site_footer_length", "site_trailing_magic", "cases_with_rich_sink", "cases_with_a_well_known_error_value"},
 		Exhaustive: func(r *Run) bool { return true },
 		Extra: func(r *Run, cov map[string]interface{}) {
 			cov["exhaustive_note"] = "exhaustive over the fault position k for every workload listed (all sink writes of the fault-free run); workloads themselves are sampled"
@@ -129,7 +129,7 @@ func init() {
 			"reference-written files whose footer tail reads as a plausible footer length (created_by chosen accordingly), and files whose string VALUES embed the footer of a shorter version of the same file followed by 8 arrangements of length words and magic, or the whole trailer / body of other files of the same struct and of a different struct, or (self-footer) the file's OWN trailer as the last bytes of its first and second row group; " +
 			"the 0..12-byte prefixes and every prefix of a zero-row file, each read right after a valid zero-row file in the same process; plus the 1..8-byte tail cuts of ~800 tiny files of varying footer size; thorough adds 20-60 KiB files with targeted cuts; oracle = constructor or Error() reports an error, no panic — except for prefixes that the reference parser finds to be valid files by themselves (not judged); " +
 			"distinct = (file, cut); non-trivial = the prefix ends in the bytes PAR1 (the trailer check alone cannot refuse it) or the cut lies in the footer, the trailer, or exactly at a page or row-group boundary",
-		Require:    []string{"cut_footer", "cut_footer_length", "cut_trailer_magic", "cut_page_header", "cut_page_body", "cut_between_row_groups", "cut_page_boundary", "big_file_cuts", "resonant_footer_cuts", "embedded_footer_cuts", "trailer_files", "self_footer_row_groups_ending_in_own_trailer", "prefixes_ending_in_magic", "embedded_files_of_another_struct", "prefixes_read_right_after_a_valid_empty_file"},
+		Require:    []string{"cut_footer", "cut_footer_length", "cut_trailer_magic", "cut_page_header", "cut_page_body", "cut_between_row_groups", "cut_page_boundary", "big_file_cuts", "resonant_footer_cuts", "embedded_footer_cuts", "trailer_files", "self_footer_row_groups_ending_in_own_trailer", "prefixes_ending_in_magic", "embedded_hostile_footers", "embedded_files_of_another_struct", "prefixes_read_right_after_a_valid_empty_file"},
 		Exhaustive: func(r *Run) bool { return true },
 		Extra: func(r *Run, cov map[string]interface{}) {
 			cov["exhaustive_note"] = "exhaustive over prefix lengths for every small file; large files (thorough) use the targeted cut set"
@@ -218,7 +218,7 @@ func init() {
 			"oracle = constructor or Error() reports an error, no panic; distinct = case id; non-trivial = feature placed in a later row group or a later page",
 		Require: []string{"feature_dictionary_rle", "feature_dictionary_plain", "feature_dictionary_page_then_plain", "feature_index_page", "feature_data_page_v2", "feature_delta_binary_packed",
 			"feature_delta_length_byte_array", "feature_delta_byte_array", "feature_byte_stream_split", "feature_rle_boolean", "feature_bit_packed_def_levels", "feature_bit_packed_rep_levels",
-			"feature_codec_lzo", "feature_codec_brotli", "feature_codec_lz4", "feature_codec_zstd", "feature_codec_lz4_raw", "feature_codec_unassigned_8", "feature_codec_unassigned_1000", "feature_codec_negative", "feature_in_later_row_group", "feature_in_later_page",
+			"feature_codec_lzo", "feature_codec_brotli", "feature_codec_lz4", "feature_codec_zstd", "feature_codec_lz4_raw", "feature_codec_unassigned_8", "feature_codec_unassigned_1000", "feature_codec_negative", "feature_in_later_row_group", "feature_in_later_page", "feature_index_page_without_body", "feature_empty_dictionary_page_then_plain",
 			"carriers_with_row_groups_over_1MiB", "reads_through_a_source_with_ReadAt", "feature_bighdr:data_page_v2", "feature_value_encoding_id_8", "feature_value_encoding_id_256", "feature_def_level_encoding_id_8", "feature_rep_level_encoding_id_256", "feature_def_level_encoding_id_-1"},
 	})
 	addSpec(&Spec{ID: "C05", Title: "parquetgen never emits silently wrong code", Level: "translation_validation",
@@ -246,7 +246,7 @@ func init() {
 		Custom: customC05,
 	})
 	addSpec(&Spec{ID: "C14", Title: "excluded fields are inert and embedding equals inlining", Level: "translation_validation",
-		Rule: "programs = base shapes from the C05 universe that have no C05 finding (quick 150 with <= 4 nodes, thorough 500 with <= 5 nodes) and their decorated variants: an excluded field (rotating over 30 forms: lower-case, blank, underscore, multi-name declarations (all unexported; an unexported name added to the declaration of an exported field), " +
+		Rule: "programs = base shapes from the C05 universe that have no C05 finding (quick 150 with <= 4 nodes, thorough 500 with <= 5 nodes) and their decorated variants: an excluded field (rotating over 31 forms: lower-case, blank, underscore, multi-name declarations (all unexported; an unexported name added to the declaration of an exported field), " +
 			"non-ASCII lower-case, unexported map/pointer-to-struct/anonymous struct (also with tagged inner fields), embedded structs tagged parquet:\"-\", func with named parameters, parquet:\"-\" on string/map/chan/func/time.Time/slice/interface, other tag keys before/after incl. values with escaped quotes, spaces and colons) inserted at a position of a struct at any nesting level, one variant with a field at every position, " +
 			"and variants in which a contiguous run of sibling fields is moved into an embedded struct (quick: 2+1+2 variants per base; thorough: every position and every run, and for one base in twelve every form at every position); one base in four is built a second time with field names numbered per struct (nested structs repeat the names around them; all embeddings); " +
 			"every chunk of struct definitions is additionally generated in ONE process through gen.FromStruct and the output compared with the separate parquetgen processes' output; " +
